@@ -36,10 +36,10 @@ type c04Tx struct {
 }
 
 type c04Fix struct {
-	w    *mcWallet
-	txs  []*c04Tx
-	pool []*crypto.Key
-	mask crypto.Key
+	w          *mcWallet
+	txs        []*c04Tx
+	pool       []*crypto.Key
+	mask       crypto.Key
 	competitor *common.VersionedTransaction
 }
 
@@ -332,7 +332,16 @@ func c04Linearizable(f *c04Fix, threads [][]*c04Call, final *c04Model) bool {
 	return rec(&c04Model{owner: map[int]string{}, final: map[string]bool{}})
 }
 
-func TestMC_C04(t *testing.T) {
+func TestMC_C04(t *testing.T) { c04Main(t) }
+
+// TestMCRace_C04 is the separate free-running pass (go test -race) over the
+// bodies of the concurrent scenarios.
+func TestMCRace_C04(t *testing.T) {
+	c04Main(t)
+	verifmc.RacePassDone("C04")
+}
+
+func c04Main(t *testing.T) {
 	c := verifmc.Start(t, "C04", "model_checking")
 	defer c.Finish()
 	c.SetRule("BFS over all histories of {Validate, LockGhostKeys(nofork), LockGhostKeys(fork), finalize} x 6 wire-decoded transactions whose output key sets over a pool of 3 real one-time keys are {k0},{k0,k1},{k1,k1},{k2},{k1} (script outputs) and {k0} on a node-remove output; reference = key -> first owner; plus every interleaving (bounded preemptions) of concurrent reservations checked for linearisability")
@@ -352,92 +361,94 @@ func TestMC_C04(t *testing.T) {
 	ntx := len(probe.txs)
 	probe.w.L.Close()
 	names = append(names, "admit(A)", "takeover-input-of-A(X)")
-	b := &verifmc.BFS[*c04State]{
-		C: c, NumEvents: ntx*c04NOps + 2, MaxDepth: verifmc.Pick(c, 4, 5),
-		EventName: func(e int) string { return names[e] },
-		New: func(int) *c04State {
-			return &c04State{f: c04Setup(), m: &c04Model{owner: map[int]string{}, final: map[string]bool{}}}
-		},
-		Close: func(s *c04State) { s.f.w.L.Close() },
-		Key:   func(s *c04State) string { return fmt.Sprintf("%s adm=%v taken=%v", s.m.key(), s.admitted, s.taken) },
-		Apply: func(s *c04State, e int, replaying bool, report func(key, desc string)) bool {
-			if e >= ntx*c04NOps {
-				// the two extra events around A: ordinary admission (validate, lock
-				// inputs, persist body) and the takeover of A's input by a competitor
-				a := s.f.txs[0]
-				st := s.f.w.L.Store
-				before := s.m.key()
-				if e == ntx*c04NOps {
-					if s.m.final[a.name] || s.admitted {
-						return false
-					}
-					ok := s.m.reserve(a)
-					err := a.ver.Validate(st, s.f.w.Time, false)
-					if (err == nil) != ok {
-						if !replaying {
-							report("admit-validate-mismatch", fmt.Sprintf("admit(A) in [%s]: Validate error %v, reference allows=%v", before, err, ok))
+	if !verifmc.FreeRunning() {
+		b := &verifmc.BFS[*c04State]{
+			C: c, NumEvents: ntx*c04NOps + 2, MaxDepth: verifmc.Pick(c, 4, 5),
+			EventName: func(e int) string { return names[e] },
+			New: func(int) *c04State {
+				return &c04State{f: c04Setup(), m: &c04Model{owner: map[int]string{}, final: map[string]bool{}}}
+			},
+			Close: func(s *c04State) { s.f.w.L.Close() },
+			Key:   func(s *c04State) string { return fmt.Sprintf("%s adm=%v taken=%v", s.m.key(), s.admitted, s.taken) },
+			Apply: func(s *c04State, e int, replaying bool, report func(key, desc string)) bool {
+				if e >= ntx*c04NOps {
+					// the two extra events around A: ordinary admission (validate, lock
+					// inputs, persist body) and the takeover of A's input by a competitor
+					a := s.f.txs[0]
+					st := s.f.w.L.Store
+					before := s.m.key()
+					if e == ntx*c04NOps {
+						if s.m.final[a.name] || s.admitted {
+							return false
 						}
-						return true
-					}
-					if err == nil {
-						if lerr := a.ver.LockInputs(st, false); lerr == nil {
-							if werr := st.WriteTransaction(a.ver); werr == nil {
-								s.admitted = true
+						ok := s.m.reserve(a)
+						err := a.ver.Validate(st, s.f.w.Time, false)
+						if (err == nil) != ok {
+							if !replaying {
+								report("admit-validate-mismatch", fmt.Sprintf("admit(A) in [%s]: Validate error %v, reference allows=%v", before, err, ok))
+							}
+							return true
+						}
+						if err == nil {
+							if lerr := a.ver.LockInputs(st, false); lerr == nil {
+								if werr := st.WriteTransaction(a.ver); werr == nil {
+									s.admitted = true
+								}
 							}
 						}
-					}
-				} else {
-					if !s.admitted || s.m.final[a.name] || s.taken {
-						return false
-					}
-					if err := s.f.competitor.LockInputs(st, true); err != nil {
-						if !replaying {
-							report("takeover-failed", err.Error())
+					} else {
+						if !s.admitted || s.m.final[a.name] || s.taken {
+							return false
 						}
-						return true
+						if err := s.f.competitor.LockInputs(st, true); err != nil {
+							if !replaying {
+								report("takeover-failed", err.Error())
+							}
+							return true
+						}
+						s.taken = true
 					}
-					s.taken = true
-				}
-				if !replaying {
-					if obs := s.f.observe(s.m); obs.key() != s.m.key() {
-						report("binding-changed-by-"+names[e], fmt.Sprintf("after %s from [%s]: stored bindings [%s], reference [%s] (a key, once reserved, stays bound to its transaction)", names[e], before, obs.key(), s.m.key()))
+					if !replaying {
+						if obs := s.f.observe(s.m); obs.key() != s.m.key() {
+							report("binding-changed-by-"+names[e], fmt.Sprintf("after %s from [%s]: stored bindings [%s], reference [%s] (a key, once reserved, stays bound to its transaction)", names[e], before, obs.key(), s.m.key()))
+						}
 					}
+					return true
+				}
+				tx, op := s.f.txs[e/c04NOps], e%c04NOps
+				if s.taken && tx.name == "A" {
+					return false // A's input now belongs to the competitor: A is dead, its keys stay bound
+				}
+				before := s.m.key()
+				en, want := c04Step(s.m, tx, op)
+				if !en {
+					return false
+				}
+				got, detail, unchanged := s.f.do(tx, op)
+				if replaying {
+					return true
+				}
+				obs := s.f.observe(s.m)
+				if got && !want {
+					report(c04OpNames[op]+"-accepted", fmt.Sprintf("%s(%s) succeeded in [%s] although a key of it is bound to another transaction (or repeats inside the transaction); stored [%s]", c04OpNames[op], tx.name, before, obs.key()))
+					return true
+				}
+				if !got && want {
+					report(c04OpNames[op]+"-refused", fmt.Sprintf("%s(%s) failed (%s) in [%s] where no key conflicts", c04OpNames[op], tx.name, detail, before))
+					return true
+				}
+				if !got && op == c04Finalize && !unchanged {
+					report("finalize-failed-but-wrote", fmt.Sprintf("finalize(%s) failed (%s) but the database changed", tx.name, detail))
+				}
+				if obs.key() != s.m.key() {
+					report(c04OpNames[op]+"-binding", fmt.Sprintf("after %s(%s) from [%s]: stored bindings [%s], reference [%s]", c04OpNames[op], tx.name, before, obs.key(), s.m.key()))
 				}
 				return true
-			}
-			tx, op := s.f.txs[e/c04NOps], e%c04NOps
-			if s.taken && tx.name == "A" {
-				return false // A's input now belongs to the competitor: A is dead, its keys stay bound
-			}
-			before := s.m.key()
-			en, want := c04Step(s.m, tx, op)
-			if !en {
-				return false
-			}
-			got, detail, unchanged := s.f.do(tx, op)
-			if replaying {
-				return true
-			}
-			obs := s.f.observe(s.m)
-			if got && !want {
-				report(c04OpNames[op]+"-accepted", fmt.Sprintf("%s(%s) succeeded in [%s] although a key of it is bound to another transaction (or repeats inside the transaction); stored [%s]", c04OpNames[op], tx.name, before, obs.key()))
-				return true
-			}
-			if !got && want {
-				report(c04OpNames[op]+"-refused", fmt.Sprintf("%s(%s) failed (%s) in [%s] where no key conflicts", c04OpNames[op], tx.name, detail, before))
-				return true
-			}
-			if !got && op == c04Finalize && !unchanged {
-				report("finalize-failed-but-wrote", fmt.Sprintf("finalize(%s) failed (%s) but the database changed", tx.name, detail))
-			}
-			if obs.key() != s.m.key() {
-				report(c04OpNames[op]+"-binding", fmt.Sprintf("after %s(%s) from [%s]: stored bindings [%s], reference [%s]", c04OpNames[op], tx.name, before, obs.key(), s.m.key()))
-			}
-			return true
-		},
+			},
+		}
+		st, tr, _, _ := b.Run()
+		c.Require(st > 20 && tr > 300, "vacuous sequential exploration %d/%d", st, tr)
 	}
-	st, tr, _, _ := b.Run()
-	c.Require(st > 20 && tr > 300, "vacuous sequential exploration %d/%d", st, tr)
 
 	// ---- concurrent reservations ----
 	badger.VerifHook = func(kind, dir string, writes int) error {
@@ -521,5 +532,5 @@ func TestMC_C04(t *testing.T) {
 	c.Set("concurrent_scenarios", len(scen))
 	c.Set("concurrent_executions", execs)
 	c.Set("preemption_bound", bound)
-	c.Require(contended >= 4 || c.Violations() > 0, "only %d of %d scenarios produced several outcomes", contended, len(scen))
+	c.Require(verifmc.FreeRunning() || contended >= 4 || c.Violations() > 0, "only %d of %d scenarios produced several outcomes", contended, len(scen))
 }
